@@ -22,6 +22,17 @@ from zope.interface import directlyProvides, implementer
 from zope.interface.registry import Components
 
 
+def oracle_call(vid, obj_ids):
+    """What a component returns when called as a factory / subscriber / handler: None or a small
+    number (mirrors Tie.C16.call16; small so that Coq reads the literals as plain nat)."""
+    if (vid + sum(obj_ids)) % 3 == 0:
+        return None
+    code = 0
+    for o in obj_ids:
+        code = code * 10 + (o % 10)
+    return vid * 100 + code
+
+
 def make_classes():
     """Fresh component classes per case: ``directlyProvides`` shares Provides objects per
     (class, interfaces) and interfaces of different cases' worlds are equal by name."""
@@ -45,7 +56,7 @@ def make_classes():
         def __call__(self, *objs):
             ids = [self.env.world.obj_id(o) for o in objs]
             self.env.calls.append(self.vid)
-            return R.oracle_call(self.vid, ids)
+            return oracle_call(self.vid, ids)
 
     class UComp(Comp):
         __hash__ = None
